@@ -28,6 +28,9 @@ var sessionCatalogue = []string{
 	`(for [(def i 0) (< i 3) (def i (+ i 1))] i)`,
 	`(for [(def i 0) (< i 3) (def i (+ i 1))] (cond (== i 1) (break) nil))`,
 	`(for [(def i 0) (< i 3) (def i (+ i 1))] (cond (== i 1) (continue) nil) (let [z i] z))`,
+	// loops that do not compile (body, test): what follows them on the same interpreter must still end at rest
+	`(for [(def i 0) (< i 3) (def i (+ i 1))] (let [x] x))`,
+	`(for lab%d: [(def i 0) (< (let [x] x) 3) (def i (+ i 1))] i)`,
 	`(for outer: [(def i 0) (< i 2) (def i (+ i 1))] (for [(def j 0) (< j 2) (def j (+ j 1))] (let [w j] (cond (== j 1) (continue outer:) (break outer:)))))`,
 	`(defn f%d [a] (+ a 1))`, `(defn g%d [a & r] r)`, `((fn [a] a) 5)`, `(fn [a] a)`,
 	`(defn t%d [n acc] (cond (<= n 0) acc (t%d (- n 1) (+ acc 1))))`,
